@@ -1,7 +1,8 @@
 (** Headline lemmas of C20 in their final form (stated over all operation
     sequences from the initial state). *)
 From RsM Require Import Lib.MachInt Model.Slots Model.SlotsSpec Proofs.SlotsFacts Proofs.SlotsInv
-  Proofs.SlotsStep Proofs.SlotsEvict Proofs.SlotsRdv Proofs.SlotsNode Proofs.SlotsOwn.
+  Proofs.SlotsStep Proofs.SlotsEvict Proofs.SlotsRdv Proofs.SlotsNode Proofs.SlotsOwn
+  Proofs.SlotsExch Proofs.SlotsExchNode Proofs.SlotsSweep Proofs.SlotsProbe.
 From Coq Require Import Permutation ZifyN ZifyBool Arith.
 Open Scope N_scope.
 
@@ -195,3 +196,34 @@ Qed.
 Theorem marker_free_accepts : forall a now,
   marker_check a true now None = (Some (a, now + PASE_TIMEOUT_MS), None).
 Proof. reflexivity. Qed.
+
+(** * exchange slots of unsecured sessions belong to running handlers *)
+
+Theorem exchange_slots_owned : forall cap mx ops,
+  8 * N.of_nat (length ops) <= UID_MAX ->
+  xinv (nrun cap mx node_init ops).
+Proof.
+  intros cap mx ops Hb.
+  assert (Hb0 : next_of (core node_init) + 8 * N.of_nat (length ops) <= UID_MAX)
+    by (unfold next_of; cbn [node_init st_init core tb t_next]; lia).
+  apply nrun_xinv; auto; [apply inv1_init|apply hinv_init|apply xinv_init].
+Qed.
+
+(** * a new handshake gets its two slots when two are reclaimable *)
+
+Theorem handshake_two_slots : forall cap mx ops k now,
+  8 * N.of_nat (length ops) + 24 <= UID_MAX ->
+  let n := nrun cap mx node_init ops in
+  room2 cap now (nl n) ->
+  (k = HPase -> marker_live now (marker n) = None) ->
+  exists n1 a, first_msg cap mx k now n = (n1, Some a) /\
+               snd (nstep cap mx n1 (NAccept a VGood now)) = ROk.
+Proof.
+  intros cap mx ops k now Hb n Hroom Hm.
+  assert (Hb0 : next_of (core node_init) + 8 * N.of_nat (length ops) <= UID_MAX)
+    by (unfold next_of; cbn [node_init st_init core tb t_next]; lia).
+  destruct (nrun_inv1 cap mx ops node_init (inv1_init cap) Hb0) as [Hi Hn]. fold n in Hi, Hn.
+  unfold next_of in Hn at 2. cbn [node_init st_init core tb t_next] in Hn.
+  pose proof (nrun_hinv cap mx ops node_init (inv1_init cap) Hb0 hinv_init) as Hh. fold n in Hh.
+  apply handshake_gets_both_slots; auto. lia.
+Qed.
